@@ -1,4 +1,5 @@
-"""C18 side of the tie by translated source: (*provider).ruleSetsUpdated of the http_endpoint rule provider is translated
+"""C18 side of the tie by translated source: (*provider).ruleSetsUpdated of the http_endpoint rule provider and
+(*Provider).ruleSetCreatedOrUpdated / ruleSetDeleted of the file_system provider are translated
 from the current source on every run (extract/go2lean, cmd/providers, Gen/ProvidersSrc.lean) and proved equal to
 `httpUpdated` of the model - same processor calls, same remembered digests, same error - for every state and every
 fetched rule set (Props/C18Src.lean). Shared machinery: tools/go2lean_tie.py; called from tools/props/c18.py."""
@@ -6,7 +7,7 @@ import go2lean_tie as tie
 
 TIE = tie.Tie(
     cmd="providers", gen_module="HeimdallModel.Gen.ProvidersSrc", stub_namespace="Heimdall.Prov.Src",
-    what="the decision kernel of the http_endpoint provider",
+    what="the decision kernels of the http_endpoint and file_system providers",
     trusted="Go -> Lean translator extract/go2lean (go/ast, fails closed outside its subset; regenerates "
             "Gen/ProvidersSrc.lean from the whole body of (*provider).ruleSetsUpdated of internal/rules/provider/httpendpoint "
             "on every run): trusted to keep the meaning of the statements it translates; its table (cmd/providers/main.go): "
@@ -16,7 +17,8 @@ TIE = tie.Tie(
 PROP = tie.Prop("HeimdallModel.Props.C18Src", "Heimdall.Props.C18", always=("HeimdallModel.Model.ProvidersSrc",))
 
 ASSUMPTION = (
-    "translated source (Gen/ProvidersSrc.lean): only ruleSetsUpdated of the http_endpoint provider is translated; the "
+    "translated source (Gen/ProvidersSrc.lean): ruleSetsUpdated of the http_endpoint provider and ruleSetCreatedOrUpdated / "
+    "ruleSetDeleted of the file_system provider are translated (what loadRuleSet returns for the file is a parameter); the "
     "state map and the processor are parameters which Model/ProvidersSrc.lean fills in with the book / the repository of "
     "the model (a refusing processor changes nothing); fetching, decoding and the polling loop, and the kernels of the "
     "other providers (maps and slices the translator does not read) are tied by the correspondence run")
@@ -43,6 +45,20 @@ def main : IO Unit := do
             | .done e (st', tr) => s!"error={e.isSome} book={repr st'.book} active={repr st'.active} calls={repr tr}"
             | .panic _ _ => "panic"
           IO.println s!"\{\"remembered\": \"{repr b}\", \"fetched\": \"{repr rs}\", \"refused_sources\": \"{rej}\", \"src\": \"{got.replace "\n" " "}\", \"model\": \"error={want.err} book={repr want.st.book} active={repr want.st.active} calls={(toString (repr want.calls)).replace "\n" " "}\"}"
+  for b in ([[], [(7, 1)], [(7, 2)], [(7, 0)], [(8, 1)]] : List (Book Nat)) do
+    for f in [FileState.missing, .empty, .invalid, .valid 1, .valid 2] do
+      for rej in [[], [7]] do
+        let st : St Nat := ⟨b, b.filter (·.2 ≠ 0)⟩
+        let want := fsCreatedOrUpdated rej st 7 f
+        let ok := match fsChangedSrc rej 7 f (st, []) with
+          | .done e (st', tr) => e.isSome == want.err && st'.book == want.st.book && st'.active == want.st.active && tr == want.calls
+          | .panic _ _ => false
+        if !ok && n < 20 then
+          n := n + 1
+          let got := match fsChangedSrc rej 7 f (st, []) with
+            | .done e (st', tr) => s!"error={e.isSome} book={repr st'.book} active={repr st'.active} calls={repr tr}"
+            | .panic _ _ => "panic"
+          IO.println s!"\{\"remembered\": \"{repr b}\", \"fetched\": \"file {repr f}\", \"refused_sources\": \"{rej}\", \"src\": \"{got.replace "\n" " "}\", \"model\": \"error={want.err} book={repr want.st.book} active={repr want.st.active} calls={(toString (repr want.calls)).replace "\n" " "}\"}"
   IO.println s!"\{\"differing\": {n}}"
 """
 
@@ -81,7 +97,7 @@ def _report(R):
                     no_input=True)
         return
     diff = [r for r in rows if "src" in r]
-    R.coverage["src_search"] = {"grid": "5 books x 3 fetched rule sets x 3 sets of refused sources",
+    R.coverage["src_search"] = {"grid": "http: 5 books x 3 fetched rule sets x 3 sets of refused sources; file system: 5 books x 5 file states x 2",
                                 "points_where_translation_differs_from_model": len(diff)}
     if diff:
         d = diff[0]
